@@ -10,7 +10,9 @@ def check(ctx):
     rep.floor("TryFrom<&Value> impls", nconv, 20)
     rep.floor("typed dict getters / has_* tests", nget, 17)
     eqrule.q5(ctx, rep)
-    rep.note("Not decided: Grid::make_from_dicts' column law (sorted, de-duplicated union of row keys) - a statement about a computed value, not a shape of the code.")
+    nm = kinds.check_make_from_dicts(ctx, rep)
+    rep.floor("make_from_dicts obligations", nm, 3)
+    rep.note("make_from_dicts: decided structurally only (every key of every row reaches the name set unfiltered; one column per name; sorted by name; rows moved in) - that the result *is* the sorted union for every input is the composition of these with std's set / sort semantics.")
     return ("Exhaustive over the %d kinds: HaystackKind mirrors Value variant for variant; From<&Value> maps each variant to the like-named kind; "
             "the kind->name table, Display and TryFrom<&str> are total, injective and mutually inverse; TryFrom<u8> pairs every numeric code with its "
             "own kind; each of the %d is_<k> predicates is true for exactly variant <K>; each of the %d TryFrom<&Value> impls and %d typed dict "
